@@ -7,7 +7,7 @@ RULE = ('cases = random multi-user histories (2-4 users related as owner/shared/
         '(orphans), over file sets with heavy content overlap; after every command the real object set is lifted to the layer-1 '
         'state and compared with Model/Repo.exec; every remaining snapshot is restored by its owner and compared with ground truth; '
         'non-trivial = at least 3 commands of at least 2 kinds; distinct = distinct command sequence')
-WEIGHTS = {'snapshot': 5, 'repeat': 1, 'pair': 1, 'delete': 3, 'delete_foreign': 1, 'clean': 2, 'orphans': 1, 'flaky_gc': 1, 'interrupted_delete': 1, 'observe': 1}
+WEIGHTS = {'snapshot': 5, 'repeat': 1, 'pair': 1, 'delete': 3, 'delete_foreign': 1, 'clean': 2, 'orphans': 1, 'flaky_gc': 1, 'interrupted_delete': 1, 'observe': 1, 'vanish': 1}
 CHECKS = {'restore', 'frame'}
 KINDS = None   # all violation kinds are C02-relevant when a remaining snapshot is damaged
 
